@@ -916,10 +916,8 @@ class Mesh2DTopology:
         connectivity. The standard name for this dimension is 'Two'.
         """
         two = 'Two'
-        # Check for the standard name
-        if two in self.dataset.sizes and self.dataset.sizes[two] == 2:
-            return two
-        # Use the dimension of an edge connectivity variable that is not the edge dimension
+        # Use the dimension of an edge connectivity variable that is not the edge dimension.
+        # This comes first: some other variable may use a dimension with the standard name
         if self.has_edge_dimension:
             for key in ['edge_node_connectivity', 'edge_face_connectivity']:
                 name = self.mesh_attributes.get(key)
@@ -927,6 +925,9 @@ class Mesh2DTopology:
                     for dimension in self.dataset.variables[name].dims:
                         if dimension != self.edge_dimension and self.dataset.sizes[dimension] == 2:
                             return dimension
+        # Check for the standard name
+        if two in self.dataset.sizes and self.dataset.sizes[two] == 2:
+            return two
         # Check for any other dimension of size 2
         for name, size in self.dataset.sizes.items():
             if size == 2:
